@@ -268,6 +268,7 @@ pub struct Agg {
     pub cells: Cells,
     pub fired: BTreeMap<String, u64>,
     pub collateral: BTreeMap<String, u64>,
+    pub collateral_samples: Vec<String>,
     pub failing: Vec<(u64, Finding)>,
     pub known_hits: BTreeMap<String, u64>,
     pub harness: Vec<(u64, String)>,
@@ -289,6 +290,7 @@ impl Agg {
             cells: Cells::default(),
             fired: BTreeMap::new(),
             collateral: BTreeMap::new(),
+            collateral_samples: vec![],
             failing: vec![],
             known_hits: BTreeMap::new(),
             harness: vec![],
@@ -313,6 +315,9 @@ impl Agg {
         }
         for f in &o.collateral {
             *self.collateral.entry(format!("{}:{}", f.property, f.oracle)).or_insert(0) += 1;
+            if self.collateral_samples.len() < 3 {
+                self.collateral_samples.push(format!("run {} {}:{} {}", run, f.property, f.oracle, f.detail));
+            }
         }
         let mut first_new = None;
         for f in o.armed.into_iter() {
@@ -360,6 +365,7 @@ impl Agg {
             *self.collateral.entry(k).or_insert(0) += v;
         }
         self.failing.extend(o.failing);
+        self.collateral_samples.extend(o.collateral_samples);
         for (k, v) in o.known_hits {
             *self.known_hits.entry(k).or_insert(0) += v;
         }
